@@ -177,11 +177,14 @@ class CacheOracle:
 
     def _causes(self, w, i):
         """which of the known staleness routes happened since the cache of object i was filled"""
-        if i not in self.fill_at:
-            return ["unknown-fill"] if w.kind(i) != ec.KPIXEL and w.objs[i].__dict__.get("_bbox") is not None else []
         causes = set()
         if self.alias:
             causes.add("alias")
+        if i not in self.fill_at:
+            if w.kind(i) != ec.KPIXEL and w.objs[i].__dict__.get("_bbox") is not None:
+                causes.add("unknown-fill")
+            self.causes_seen |= causes
+            return sorted(causes)
         # objects whose stored _parent chain passes through x
         def on_chain(x):
             ob, k = w.objs[i], 0
